@@ -78,8 +78,18 @@ SPEC = {
     "gens": ["RankTable"],
     "lean_modules": ["RsslVerif.Thm.C16"],
     "theorems": [T + n for n in [
+        # facts about the re-extracted tables
         "compare_total", "primaryRank_diag", "primaryRank_ne_exact", "order_agrees", "worstToBest_agrees",
-        "needsLvalue_table", "resolve_perm"]],
+        "needsLvalue_table",
+        # the property, for all candidate lists / arities / arguments
+        "resolve_perm", "selected_is_viable", "selected_not_dominated", "selected_not_dominated_componentwise",
+        "finals_are_the_exact_matches", "unique_exact_selected", "twin_exact_ambiguous",
+        # the conversion model and the property as worded on its own quantifier
+        "find_total", "findRank_total_off_matrix", "resolve_no_panic", "exact_rank_iff_same_type_on_grid",
+        "exact_type_match_selected_on_grid", "exact_type_twins_ambiguous_on_grid",
+        # recorded readings / witnesses (decide on concrete inputs, replayed on the real code by corpus/C16.txt)
+        "in_out_twin_is_ambiguous", "default_twin_is_ambiguous", "vec1_twin_is_ambiguous",
+        "tournament_without_winner", "scalar_to_matrix_panics"]],
     "harness": "c16",
     "nontrivial": nontrivial,
     "finding_key": finding_key,
